@@ -1,4 +1,4 @@
-import LokyModel.Lemmas.ExecFrame
+import LokyModel.Lemmas.ExecAddF
 /-! Mutual exclusion on `processes_management_lock` (`mgmt`) with a ghost owner. -/
 namespace LokyModel.Exec
 
@@ -41,6 +41,8 @@ theorem mgmtInv_init (cfg : Cfg) : MgmtInv (init cfg) := by
   | zero => rfl
   | succ n ih => unfold mAddFuel; (repeat' split) <;> first | rfl | simp [*]
 @[simp] theorem inMgmtM_mAdd (s : St) : inMgmtM (mAdd s).mpc = false := by unfold mAdd; simp
+@[simp] theorem inMgmtM_mAddF (s : St) : inMgmtM (mAddF s).mpc = false := by
+  rcases mAddF_mpc s with ⟨i, _, h⟩ | ⟨_, h, _⟩ | ⟨_, h, _⟩ <;> rw [h] <;> rfl
 @[simp] theorem inMgmtM_mJoinStart (s : St) : inMgmtM (mJoinStart s).mpc = false := rfl
 @[simp] theorem inMgmtM_mKillNext (s : St) : inMgmtM (mKillNext s).mpc = false := by
   unfold mKillNext; split <;> rfl
